@@ -72,6 +72,10 @@ pub fn judge(item: &Item, obs: &Obs, seq: Option<&Result<hcore::visit::TermResul
         vs.push(Viol { key: "panic".into(), what: format!("terminal panicked without an injected fault: {}", msg) });
         return vs;
     }
+    if matches!(obs.result, Ok(hcore::visit::TermResult::NA)) {
+        // the terminal does not exist for this (source, chain): nothing was run
+        return vs;
+    }
     if ck & CK_RESULT != 0 {
         vs.extend(oracle::chk_result(&cx));
     }
